@@ -76,13 +76,14 @@ static const char * expected_desc(int code, int * is_fallback) {
 enum { K_QUERY, K_TEXT, K_NOTEXT, K_EMPTY_SEMI, K_EMPTY_NOSEMI, K_CUT, K_COMPLETE, K_COMPLETE_FULL, K_CUT_QUOTE_ONE_LEFT, K_CUT_FULL, K_LASTQUOTE_AT_LIMIT,
        K_CUT_IN_DESC_SEP, K_DESC_TABLE, K_DESC_FALLBACK, K_EXPLICIT, K_AUTO, K_AUTO_STORE_CUT, K_QUOTES_DOUBLED, K_Q0, K_Q1, K_Q2, K_Q3, K_QMANY,
        K_8BIT, K_8BIT_HOLD, K_8BIT_DEVIATE, K_CTRL, K_PUNCT, K_SECOND_EMPTY, K_NEXT_ENTRY, K_COUNT_DEC, K_COUNTQ, K_HEAP_WRAPPED, K_HEAP_WRAP_NEAR_CUT, K_HEAP_WRAP_EMPTY2,
-       K_HEAP_WRAP_QUOTE_SPLIT, K_HEAP_WRAP_BEFORE_CUT, K_FLUSH_ONE, K_FLUSH_OTHER, K_TRANSLATE_AGREES, K__N };
+       K_HEAP_WRAP_QUOTE_SPLIT, K_HEAP_WRAP_BEFORE_CUT, K_FLUSH_ONE, K_FLUSH_OTHER, K_TRANSLATE_AGREES, K_REENT_ERR, K_REENT_WR, K_REENT_DROPPED, K__N };
 static const char * const knames[K__N] = { "query", "text.present", "text.none", "text.empty.semicolon_emitted", "text.empty.description_only", "content.cut", "content.complete",
     "content.complete_exactly_at_limit", "cut.quote_at_limit_one_slot_left", "cut.all_slots_used", "cut.doubled_quote_ends_exactly_at_limit", "cut.would_cut_separator", "desc.table", "desc.fallback",
     "push.explicit_length", "push.automatic_length", "push.automatic_length_stored_cut", "content.quotes_doubled", "text.quotes.0", "text.quotes.1", "text.quotes.2", "text.quotes.3",
     "text.quotes.more", "text.8bit", "text.8bit.prefix_and_cut_rules_hold", "text.8bit.prefix_or_cut_rule_deviates", "text.control_chars", "text.punctuation",
     "second_query.no_error", "order.next_entry_after_pop", "consumed.count_decreased", "count_query.agrees", "heap.wrapped_text", "heap.wrapped_near_cut", "heap.wrapped_second_part_empty",
-    "heap.wrapped_quote_at_split", "heap.wrapped_before_cut", "flush.exactly_one", "flush.other", "translate.agrees_with_table" };
+    "heap.wrapped_quote_at_split", "heap.wrapped_before_cut", "flush.exactly_one", "flush.other", "translate.agrees_with_table",
+    "reentrant.error_pushed_from_error_callback_during_query", "reentrant.error_pushed_from_write_callback_during_query", "reentrant.text_dropped_for_lack_of_heap_space" };
 static uint64_t kc[K__N];
 static void kflush(void) { int i; for (i = 0; i < K__N; i++) if (kc[i]) { vh_count(knames[i], kc[i]); kc[i] = 0; } }
 
@@ -143,6 +144,15 @@ static void describe(vh_buf_t * b, const entry_t * e, vh_ctx_t * v) {
 }
 #define VIOL(key, what) do { vh_buf_t b_ = { 0, 0, 0 }; describe(&b_, e, v); vh_violation(key, "%s: %s", what, vh_buf_cstr(&b_)); vh_buf_free(&b_); } while (0)
 
+/* re-entrant use: an application may report a problem of its own (SCPI_ErrorPushEx) from inside the callbacks the library invokes while
+ * it answers the query - the write callback (transport trouble) or the error callback (invoked with 0 when the queue drains). The
+ * response being written must still be the one of the entry being reported, and the entry pushed meanwhile must come back intact. */
+static int reent_mode, reent_pushed; static scpi_t * reent_ctx; /* 1: from the error callback called with 0; 2: from the first write of the response */
+static const char reent_text[] = "pushed \"inside\" a callback";
+static void reent_push(scpi_t * c) { if (reent_pushed || c != reent_ctx) return; reent_pushed = 1; SCPI_ErrorPushEx(c, -360, (char *) reent_text, 0); }
+static void reent_on_error(scpi_t * c, int err) { if (reent_mode == 1 && err == 0) reent_push(c); }
+static void reent_on_write(scpi_t * c, const char * d, size_t n) { (void) d; (void) n; if (reent_mode == 2) reent_push(c); }
+
 /* sends the query; e == NULL means the queue is expected to be empty */
 static unsigned qserial;
 static vh_buf_t last_resp; /* response to the most recent query for a pushed entry (samples only) */
@@ -158,8 +168,32 @@ static void query_and_check(vh_ctx_t * v, const entry_t * e_in) {
     if (!e) { memset(&none, 0, sizeof none); none.code = 0; none.tstate = T_NONE; none.flow = "query on empty queue"; none.heap_split = -1; e = &none; }
     vh_ctx_clear_capture(v);
     before = SCPI_ErrorCount(v->ctx);
+    reent_mode = 0; reent_pushed = 0;
+    if (e_in && before == 1 && qserial % 4 == 1 && QUEUE_LEN >= 2) { reent_mode = 1 + (int) ((qserial >> 2) & 1); reent_ctx = v->ctx; vh_on_error_cb = reent_on_error; vh_on_write_cb = reent_on_write; }
     vh_input(v, sp, strlen(sp));
-    after = SCPI_ErrorCount(v->ctx);
+    vh_on_error_cb = NULL; vh_on_write_cb = NULL;
+    after = SCPI_ErrorCount(v->ctx) - reent_pushed;
+    if (reent_pushed) {
+        /* the entry pushed meanwhile is the only one left: take it out with a second query and look at it after the main checks */
+        static vh_buf_t keep; static resp_t r2; const char * why2; unsigned nf = v->nflush; int waf = v->write_after_flush;
+        vh_buf_reset(&keep); vh_buf_add(&keep, v->out.p, v->out.len);
+        vh_ctx_clear_capture(v);
+        vh_input(v, "SYST:ERR?\n", 10);
+        why2 = read_response(v->out.p, v->out.len, &r2);
+        int intact = !why2 && r2.code == -360 && r2.clen >= sizeof reent_text - 1 && memcmp(r2.content + r2.clen - (sizeof reent_text - 1), reent_text, sizeof reent_text - 1) == 0;
+#if VH_INFO_HEAP
+        /* static info heap: the text of the entry being reported still occupies the heap, the new text may not fit - then it is dropped whole (C20) */
+        if (!intact && !why2 && r2.code == -360 && !memchr(r2.content, ';', r2.clen)) { intact = 1; kc[K_REENT_DROPPED]++; }
+#endif
+        if (!intact) {
+            vh_buf_t b_ = { 0, 0, 0 }; describe(&b_, e, v);
+            vh_violation("C18:entry-pushed-from-a-callback-during-the-query-damaged", "error -360 \"%s\" pushed from the %s callback while the query was answered came back as \"%s\": %s", reent_text, reent_mode == 1 ? "error(0)" : "write", vh_esc(v->out.p, v->out.len), vh_buf_cstr(&b_));
+            vh_buf_free(&b_);
+        }
+        kc[reent_mode == 1 ? K_REENT_ERR : K_REENT_WR]++;
+        SCPI_ErrorClear(v->ctx);
+        vh_ctx_clear_capture(v); vh_buf_add(&v->out, keep.p, keep.len); v->nflush = nf; v->write_after_flush = waf;
+    }
     vh_eval(1);
     kc[K_QUERY]++;
     if (e_in) { vh_buf_reset(&last_resp); vh_buf_add(&last_resp, v->out.p, v->out.len); }
@@ -647,7 +681,7 @@ int main(int argc, char ** argv) {
         { "exactsrc", p4_count, p4_run },
         { "wraplimit", p5_count, p5_run },
     };
-    vh_decoy_enable(7); vh_require("decoy.messages_run_on_a_second_context"); vh_require("query");
+    vh_decoy_enable(7); vh_require("reentrant.error_pushed_from_error_callback_during_query"); vh_require("reentrant.error_pushed_from_write_callback_during_query"); vh_require("decoy.messages_run_on_a_second_context"); vh_require("query");
     vh_require("text.present");
     vh_require("text.none");
     vh_require("content.cut");
